@@ -97,7 +97,8 @@ def walk_grammar(top):
         seen.add(id(p))
         if type(p) is c19.Forward:
             byid[id(p)] = p
-        for ch in p.children:
+        kids = getattr(p, "children", None)
+        for ch in (kids if isinstance(kids, list) else []):
             note_forwards(ch, seen)
     note_forwards(top, set())
     try:
@@ -106,9 +107,7 @@ def walk_grammar(top):
         while done < len(ids.objs):
             fid = [k for k, v in ids.items() if v == done][0]
             f = byid[fid]
-            if len(f.children) != 1:
-                raise Unsupported("Forward without a definition")
-            rules.append(c19.walk(f.children[0], ids))
+            rules.append(c19.forward_body(f, ids, done))
             done += 1
     except c19.Untranslatable as e:
         raise Unsupported(str(e))
